@@ -75,9 +75,11 @@ impl Work<Context, AnyWorkId, Error> for PostWork {
                 })
                 .collect();
 
+            check_name_lengths(final_glyph_names.iter().map(|g| g.as_str()))?;
             Post::new_v2(final_glyph_names.iter().map(|g| g.as_str()))
         } else {
             // use the original glyph names as-is
+            check_name_lengths(glyph_order.names().map(|g| g.as_str()))?;
             Post::new_v2(glyph_order.names().map(|g| g.as_str()))
         };
 
@@ -87,5 +89,16 @@ impl Work<Context, AnyWorkId, Error> for PostWork {
         post.underline_thickness = FWord::new(metrics.underline_thickness.ot_round());
         context.post.set(post);
         Ok(())
+    }
+}
+
+/// post stores names as Pascal strings: one byte of length
+fn check_name_lengths<'a>(mut names: impl Iterator<Item = &'a str>) -> Result<(), Error> {
+    match names.find(|name| name.len() > u8::MAX as usize) {
+        Some(name) => Err(Error::OutOfBounds {
+            what: format!("Length of glyph name '{name}' in post"),
+            value: name.len().to_string(),
+        }),
+        None => Ok(()),
     }
 }
